@@ -215,6 +215,17 @@ Print Assumptions formats_agree_on_values_closed.
 Example json_object_codec_satisfiable : exists j, jo_enc 6 t_dict = Some j /\ jo_dec 6 j = Some t_dict.
 Proof. exact demo_json_type. Qed.
 
+(* which per-field JSON ops are confirmed by the source: for the classes in json_ops_confirmed (23 of the 31) the shape of
+   every expression serialize() stores (plain attribute, x.serialize(), optional, list / pair-list comprehension, get_flags)
+   is the one the JSON op assumes; the other classes (json_ops_derived_only, e.g. ExtraAttrs: attrs is a JSON object, not a
+   pair list) keep ops derived from the binary schema only *)
+Theorem json_ops_extracted_for :
+  forallb (class_shapes_ok json_op_shapes) json_ops_confirmed = true /\
+  str_set_eqb (json_ops_confirmed ++ json_ops_derived_only) (map fst json_schemas) = true /\
+  forallb (fun c => negb (str_mem c json_ops_derived_only)) json_ops_confirmed = true.
+Proof. exact json_ops_table. Qed.
+Print Assumptions json_ops_extracted_for.
+
 (* ---- fixup *)
 Theorem fixup_restores_references : forall resolve g,
   well_scoped resolve g -> fixup resolve (store g) = in_memory g.
